@@ -341,9 +341,10 @@ pub fn miri_job(seed: u64, n_inputs: usize, procs: usize, timeout_s: u64) -> Mir
     let (ok, timed_out, tail) = run_limited(
         Command::new("cargo")
             .current_dir(&dir)
-            .args(["+nightly", "miri", "run", "--offline", "-p", "miri-codec"])
-            .env("MIRIFLAGS", "-Zmiri-disable-isolation")
-            .env("VCODEC_MIRI_MAX", "1"),
+            .args(["+nightly", "miri", "run", "--offline", "-p", "miri-codec", "--"])
+            .arg(dir.join("codec/default_corpus.txt"))
+            .arg("2")
+            .env("MIRIFLAGS", "-Zmiri-disable-isolation"),
         Duration::from_secs(timeout_s),
         &scratch.join("miri-build.log"),
     );
@@ -379,9 +380,9 @@ pub fn miri_job(seed: u64, n_inputs: usize, procs: usize, timeout_s: u64) -> Mir
                     run_limited(
                         Command::new("cargo")
                             .current_dir(&dir)
-                            .args(["+nightly", "miri", "run", "--offline", "-p", "miri-codec"])
-                            .env("MIRIFLAGS", "-Zmiri-disable-isolation")
-                            .env("VCODEC_MIRI_CORPUS", &corpus),
+                            .args(["+nightly", "miri", "run", "--offline", "-p", "miri-codec", "--"])
+                            .arg(&corpus)
+                            .env("MIRIFLAGS", "-Zmiri-disable-isolation"),
                         Duration::from_secs(timeout_s),
                         &log,
                     )
